@@ -273,6 +273,8 @@ def option_checks(ctx):
         for ai, kw in enumerate(arg_sets(base, rng)):
             for hv in headers_variants:
                 results = {}
+                # the caller's raw Element as it is before any call: it must be carried intact and left as it is
+                raw_before = kw["raw"].plain() if "raw" in kw else None
                 for prefixes, pretty, xstq, sortns in itertools.product((True, False), repeat=4):
                     c = wsdlkit.client(w, nosend=True, prefixes=prefixes, prettyxml=pretty, xstq=xstq,
                                        sortNamespaces=sortns, soapheaders=hv)
@@ -297,6 +299,10 @@ def option_checks(ctx):
                         continue
                     results[(prefixes, pretty, xstq, sortns)] = (info, env)
                     ctx.case(common.canon(meta), True)
+                    if raw_before is not None and (kw["raw"].plain() != raw_before or kw["raw"].parent is not None):
+                        ctx.fail("building a request changed the caller's raw Element argument (the same object passed "
+                                 "again no longer means the same)", meta, kw["raw"].plain(), raw_before)
+                        kw = dict(kw, raw=suds_parse(raw_before))
                 # all settings denote the same infoset (type namespaces dropped where xstq is off)
                 ref_key = (True, False, True, True)
                 if ref_key not in results:
@@ -313,7 +319,7 @@ def option_checks(ctx):
                                  got_info=_as_tree(info), has_raw=("raw" in kw or any(hasattr(h, "plain") for h in hv)))
                 # raw elements are carried intact
                 if "raw" in kw:
-                    want = trim_mixed(xmlread.infoset(xmlread.parse(kw["raw"].plain())))
+                    want = trim_mixed(xmlread.infoset(xmlread.parse(raw_before)))
                     for key, (info, env) in results.items():
                         body = [c for c in info["children"] if c["name"][1] == "Body"][0]
                         rawnode = [c for c in body["children"][0]["children"] if c["name"][1] == want["name"][1]]
@@ -322,6 +328,11 @@ def option_checks(ctx):
                                 continue   # namespace inheritance under prefixes=False: reported above (D23)
                             ctx.fail("raw Element argument not carried intact", {"form": form, "args": ai, "options": key},
                                      rawnode, want)
+
+
+def suds_parse(text):
+    from suds.sax.parser import Parser
+    return Parser().parse(string=text.encode("utf-8")).root().detach()
 
 
 def family_option_checks(ctx):
